@@ -107,11 +107,11 @@ impl Prop for ErrorsPinpoint {
     }
     fn strategy(&self, _tier: Tier) -> BoxedStrategy<Case> {
         let fa = prop_oneof![3 => fasta_invalid_start(), 1 => gen::byte_soup(Format::Fasta)];
-        let fq = prop_oneof![5 => gen::fastq_doc_with(10, false), 1 => gen::mutated(Format::Fastq, gen::fastq_valid_doc(6)), 1 => gen::byte_soup(Format::Fastq)];
+        let fq = prop_oneof![8 => gen::fastq_doc_defective(10), 1 => gen::mutated(Format::Fastq, gen::fastq_valid_doc(6)), 1 => gen::byte_soup(Format::Fastq)];
         let per = |f: Format, input: BoxedStrategy<B>| {
             (gen::input_and_cap(f, input), gen::script(), any::<bool>()).prop_map(move |((input, cap), script, via_sets)| Case { format: f, input, cap, script, via_sets })
         };
-        boxed(prop_oneof![1 => per(Format::Fasta, fa.boxed()), 3 => per(Format::Fastq, fq.boxed())])
+        boxed(prop_oneof![1 => per(Format::Fasta, fa.boxed()), 4 => per(Format::Fastq, fq.boxed())])
     }
 
     fn check(&self, c: &Case, ctx: &mut Ctx) -> CheckResult {
